@@ -13,6 +13,9 @@ KANI_FOR = {
     'C15': ['comb'],
 }
 
+# property -> bounded native stand-in (never counted as proved): the BTOR2 line parser / writer, which the weaver cannot extract
+STANDIN_FOR = {'C01': 'btor2', 'C03': 'btor2', 'C04': 'btor2', 'C05': 'btor2', 'C08': 'btor2', 'C09': 'btor2'}
+
 LEVELS = {}          # property -> level category (default proof)
 EXPLANATIONS = {}
 ASSUMPTIONS_COMMON = [
@@ -38,8 +41,74 @@ def assumptions_of(prop, trusted):
     return a
 
 
+def build_standin():
+    """Builds /verif/standin against REPO (path dependencies are generated per run); returns (binary path | None, message)."""
+    gen = os.environ.get('VP_GEN') or os.path.join(VERIF, 'gen')
+    d = os.path.join(gen, 'standin')
+    os.makedirs(os.path.join(d, 'src'), exist_ok=True)
+    open(os.path.join(d, 'Cargo.toml'), 'w').write(open(os.path.join(VERIF, 'standin', 'Cargo.toml.in')).read().replace('@REPO@', REPO))
+    shutil.copy(os.path.join(VERIF, 'standin', 'src', 'main.rs'), os.path.join(d, 'src', 'main.rs'))
+    if os.path.exists(os.path.join(REPO, 'Cargo.lock')):
+        shutil.copy(os.path.join(REPO, 'Cargo.lock'), os.path.join(d, 'Cargo.lock'))
+    tgt = os.path.join(VERIF, 'standin', 'target') if REPO == '/repo' else os.path.join(d, 'target')
+    env = dict(os.environ, CARGO_NET_OFFLINE='true', CARGO_TARGET_DIR=tgt)
+    p = subprocess.run(['cargo', 'build', '--release', '--offline', '-q'], cwd=d, env=env, capture_output=True, text=True, timeout=1800)
+    exe = os.path.join(tgt, 'release', 'vp-standin')
+    if p.returncode != 0 or not os.path.exists(exe):
+        return None, (p.stderr or p.stdout)[-1500:]
+    return exe, ''
+
+
+def run_standin(prop, tier, seed):
+    t0 = time.time()
+    name = 'standin:' + STANDIN_FOR[prop]
+    er = {'name': name, 'kind': 'bounded', 'status': 'ok', 'reason': '', 'failures': [], 'failures_n': 0, 'cases': 0, 'distinct_nontrivial': 0, 'bound': '', 'samples': []}
+    exe, msg = build_standin()
+    if exe is None:
+        er.update(status='undecided', reason='the bounded stand-in does not build against this tree (public API changed?): ' + msg, wall_s=time.time() - t0)
+        return er
+    p = subprocess.run([exe, prop, tier, str(seed)], capture_output=True, text=True, timeout=3600)
+    try:
+        d = json.loads(p.stdout)
+    except Exception:
+        er.update(status='undecided', reason='the bounded stand-in produced no result: ' + (p.stderr or '')[-600:], wall_s=time.time() - t0)
+        return er
+    er.update(cases=d['parser_runs'], distinct_nontrivial=d['distinct_nontrivial'], bound=d['bound'], failures_n=len(d['failures']), wall_s=round(time.time() - t0, 2),
+              samples=[{'note': 'BOUNDED, not a proof: real flussab-btor2 parser/writer run natively on %d distinct inputs' % d['distinct_inputs']}])
+    seen = set()
+    for f in d['failures']:
+        if f['check'] in seen:
+            continue            # one violation per violated check; the replay file carries the first failing input
+        seen.add(f['check'])
+        er['status'] = 'failed'
+        er['failures'].append({
+            'engine': 'standin', 'kind': 'bounded_standin', 'fn': 'flussab_btor2::parser::Parser::next_line / btor2::Line::write_into',
+            'clause': 'standin:btor2::%s' % re.sub(r'[^A-Za-z0-9]+', '_', f['check']).strip('_'), 'tags': [prop],
+            'message': 'bounded stand-in: %s fails on input %r (chunk %s, read size %s, fault at %s): %s' % (f['check'], f['input'], f['chunk'], f['step'], f['fail_at'], f['detail'][:600]),
+            'rendered': json.dumps(f, indent=1)[:3000], 'clause_text': f['check'], 'site': (('flussab-btor2/src/parser.rs', 0), 0),
+            'counterexample': {'input': f['input'], 'input_hex': f['input_hex'], 'chunk': f['chunk'], 'step': f['step'], 'fail_at': f['fail_at']},
+            'scenario': {'kind': 'standin', 'input_hex': f['input_hex'], 'chunk': f['chunk'], 'step': f['step'], 'fail_at': f['fail_at'], 'check': f['check']},
+        })
+    return er
+
+
+def replay_standin(sc):
+    exe, msg = build_standin()
+    if exe is None:
+        print('NOT-REPRODUCED (stand-in does not build: %s)' % msg[-300:])
+        return 0
+    args = [exe, '--replay', sc['input_hex'], str(sc['chunk']), str(sc['step']), str(sc['fail_at']) if sc.get('fail_at') is not None else '-', (sc.get('check') or 'all')[:3]]
+    p = subprocess.run(args, capture_output=True, text=True, timeout=600)
+    print(p.stdout[-3000:])
+    print('check that failed:', sc.get('check'))
+    print('REPRODUCED: the real parser fails the check on the recorded input' if p.returncode == 1 else 'NOT-REPRODUCED')
+    return 1 if p.returncode == 1 else 0
+
+
 def run_engines(prop, tier, seed):
     out = []
+    if prop in STANDIN_FOR:
+        out.append(run_standin(prop, tier, seed))
     for g in KANI_FOR.get(prop, []):
         r = K.run_harness_group(g)
         er = {'name': 'kani:' + g, 'kind': 'kani', 'status': r['status'], 'reason': r.get('reason', ''), 'wall_s': r.get('wall_s', 0.0),
@@ -136,5 +205,7 @@ def replay(path):
         return 0
     if sc.get('kind') == 'kani_playback':
         return replay_kani(sc)
+    if sc.get('kind') == 'standin':
+        return replay_standin(sc)
     print('unknown scenario kind', sc.get('kind'))
     return 0
